@@ -127,6 +127,9 @@ def impl(case):
     declared = _declared(c)
     depth = case["depth"]
     outpat = "/".join(["all"] * (depth + 1)) + "/op/x"
+    # extrinsic input (one sample per step) to the first node's op/u, used by the run / compile operations flagged with it
+    in_target = "/".join(tree_nodes(case, len(case["circs"]) - 1)[0][0]) + "/op/u"
+    in_array = np.array([0.5, 0.25, 0.5, 0.25], dtype=np.float64)
     outs = []
     for o in case["seq"]:
         k = o[0]
@@ -169,6 +172,10 @@ def impl(case):
             from pyrates.frontend.template import from_yaml
             from_yaml(f"{YDIR}/{YFILE}/{o[1]}_derived")
             outs.append("done")
+        elif k == "op_update_vars":
+            # a derived operator that overrides a variable declared in dict form with a dict (the base's dict must survive)
+            _find_op(c, o[1]).update_template(name=o[1] + "_dv", variables={o[2]: {"vtype": "constant", "dtype": "float", "shape": (1,), "value": 9.0}})
+            outs.append("done")
         elif k == "op_update":
             # OperatorTemplate.update_template with an equation edit and no `variables`: a derived template is returned,
             # the variables the new equation does not use are dropped from ITS dict only (fix D44)
@@ -192,8 +199,9 @@ def impl(case):
             reset_keep_templates()
             try:
                 meth = c.get_run_func if k == "grf" else c.get_jacobian_func
+                kw = {"inputs": {in_target: in_array.copy()}} if len(o) > 2 and o[2] else {}
                 _, args, _, smap = meth("f", STEP, in_place=False, float_precision="float64", vectorize=bool(o[1]),
-                                        backend="default", verbose=False, clear=False)
+                                        backend="default", verbose=False, clear=False, **kw)
                 y = np.asarray(args[1], dtype=np.float64)
                 # vectorized compiles name the merged state vector differently: compare the multiset of initial values
                 outs.append({"y0": "declared" if sorted(y.reshape(-1).tolist()) == sorted(declared.values()) else "carried"})
@@ -204,8 +212,9 @@ def impl(case):
         elif k == "run":
             reset_keep_templates()
             try:
+                kw = {"inputs": {in_target: in_array.copy()}} if len(o) > 2 and o[2] else {}
                 res = c.run(simulation_time=4 * STEP, step_size=STEP, solver="euler", outputs={"o": outpat}, in_place=False,
-                            float_precision="float64", vectorize=bool(o[1]), backend="default", verbose=False, clear=False)
+                            float_precision="float64", vectorize=bool(o[1]), backend="default", verbose=False, clear=False, **kw)
                 first = sorted(float(v) for v in np.asarray(res.iloc[0]).reshape(-1))
                 ok = first == sorted(v for kk, v in declared.items() if kk.endswith("/op/x"))
                 outs.append({"run": "ok" if ok else "other-start"})
@@ -318,12 +327,21 @@ def gen_case(rng, maxlen):
         else:
             seq.append(["obs"])
     seq.append(["obs"])
+    if depth <= 1:
+        for o in seq:          # extrinsic inputs on some run / compile calls (hierarchies of depth >= 2: defect D30 of C08)
+            if o[0] in ("run", "grf", "jac") and rng.random() < 0.4:
+                o.append(True)
+    dvars = [(o["name"], v) for o in ops for v in o.get("dictform", [])]
+    for _ in range(rng.randint(0, 2) if dvars else 0):
+        n_, v_ = rng.choice(dvars)
+        seq.insert(rng.randint(1, len(seq) - 1), ["op_update_vars", n_, v_])
     case["seq"] = seq
     if rng.random() < 0.35:
         # the same templates loaded from a YAML file (cached, shared objects); derived templates are loaded during the sequence
         case["via_yaml"] = True
         for o in ops:
             o["dictform"] = []
+        seq[:] = [o for o in seq if o[0] != "op_update_vars"]
         names_d = [o["name"] for o in ops] + [f"n{i}" for i in range(len(nodes))] + [f"ct{i}" for i, c in enumerate(circs) if c["edges"]]
         k = rng.randint(1, 3)
         for _ in range(k):
@@ -381,7 +399,7 @@ def coq_case(case, outs):
         elif k == "derive_edit":
             ops.append(f"MDeriveEdit {cstr(o[1])} {cstr(o[2])} [({cstr('weight')}, {c07.cval(o[3])})]")
             pys.append("PDone'" if r == "done" else "PRaised'")
-        elif k in ("op_update", "load_derived"):
+        elif k in ("op_update", "load_derived", "op_update_vars"):
             ops.append(f"MNewObject (OOp {cstr(o[1] + '_derived')} [] [])"); pys.append("PDone'")
         elif k in ("get_edges", "collect_edges", "collect_edges_delay"):
             ops.append("MRead QEdges"); pys.append(f"PEdgeCount (Some {cnat(r['count'])})")
@@ -503,7 +521,7 @@ def check(ctx):
             kinds[o[0]] = kinds.get(o[0], 0) + 1
     write_evidence(ctx, evaluations=len(cases), distinct_nontrivial=len(nt),
                    rule="random sequences of get_nodes / get_node_template / __getitem__ / get_edges / collect_edges (also delay_info=True) / get_edge / to_yaml / "
-                        "deepcopy / update_template(edges) / derive-and-edit (update_template(nodes|circuits) without edges, then an edge update on the derived template) / OperatorTemplate.update_template(equations) / loading a derived template (base: chain) from YAML / get_run_func / get_jacobian_func / run (in_place=False, both vectorize settings) on templates of depth 0-2 "
+                        "deepcopy / update_template(edges) / derive-and-edit (update_template(nodes|circuits) without edges, then an edge update on the derived template) / OperatorTemplate.update_template(equations) / loading a derived template (base: chain) from YAML / get_run_func / get_jacobian_func / run (in_place=False, both vectorize settings, with and without extrinsic inputs) on templates of depth 0-2 "
                         "with one OperatorTemplate object per name (constants partly declared in explicit dict form), shared NodeTemplate objects, per-node overrides and (20%) shared sub-circuit objects; "
                         "the template is measured (deep copy with cleared bookkeeping: parameter values, declared initial values, edge sums, to_yaml text, "
                         "own edge count) before, between and after; non-trivial = >= 2 operations and (a shared object or a hierarchy); distinct = canonical JSON",
@@ -517,5 +535,5 @@ def check(ctx):
                                  "a compile's initial state is classified as declared / carried by exact comparison with the declared initial values "
                                  "(all generated derivatives are > 0, so a carried final state differs)"],
                    assumptions=["edge attribute dictionaries hold numbers only (collect_edges rewrites string-valued attributes of sub-circuit edges: not modelled)",
-                                "no extrinsic inputs; default backend; the vectorize-switch outcomes are those of circuits whose nodes all merge under vectorization",
+                                "extrinsic inputs only on hierarchies of depth <= 1 (depth >= 2: defect D30 of C08); default backend; the vectorize-switch outcomes are those of circuits whose nodes all merge under vectorization",
                                 "OperatorTemplate.update_template and loading a derived template from YAML (35% of the cases are built through from_yaml, so that the cached base templates are the objects under test) are modelled as the creation of one new object (MNewObject)"])
